@@ -126,7 +126,7 @@ Pump(s, todo, out, now) ==
         [] x.o = "done" -> Pump(s, rest, Append(out, CDone(x.c, x.res, x.val)), now)
         [] x.o = "sent" ->        \* Gateway.send_data -> AshProtocol.send_data (eager task: runs to its first wait)
              LET r == SubmitFn(s.g.h, x.c, CmdPl(x.seq, x.cmd, s.lay))
-             IN Pump([s EXCEPT !.g.h = r.h], rest \o FromH(r.out), out, now)
+             IN Pump([s EXCEPT !.g.h = r.h], rest \o FromH(r.out), Append(out, x), now)   \* "sent" is kept as a note
         [] x.o = "adone" ->       \* the link-level send of call x.id ended: its command task resumes
              IF s.p.hold.c = x.id /\ s.p.hold.ph = "sending"
              THEN LET r == SendResFn(s.p, x.res = "ok", AllHang, now)
